@@ -24,6 +24,11 @@ type c28Case struct {
 	Nts   []string `json:"nts,omitempty"`
 	// IDs gives some terminals an explicit identifier: `name (ID): /re/`.
 	IDs map[int]string `json:"ids,omitempty"`
+	// Feat: symbols the compiler derives itself, bit 0 `T?`, 1 a group list `(T U | T)+`, 2 a
+	// mid-rule action, 3 `T+`, all in the first nonterminal's rule; Tmpl: a templated nonterminal
+	// `<base><F>` used as `<base><+F>` (its instance is called <base>_<F>).
+	Feat int       `json:"feat,omitempty"`
+	Tmpl [2]string `json:"tmpl,omitempty"`
 }
 
 var c28Ident = regexp.MustCompile(`^[A-Za-z_][A-Za-z0-9_]*$`)
@@ -81,7 +86,13 @@ func c28Gen(t *rapid.T) c28Case {
 	seen := map[string]bool{}
 	variant := func(base string) string {
 		// derive a colliding spelling
-		switch rapid.IntRange(0, 4).Draw(t, "variant") {
+		switch rapid.IntRange(0, 7).Draw(t, "variant") {
+		case 5: // the names the compiler derives for `x?`, `x+`, `x*`
+			return base + "opt"
+		case 6:
+			return base + "_list"
+		case 7:
+			return base + "_optlist"
 		case 0:
 			return strings.ReplaceAll(base, "-", "_")
 		case 1:
@@ -173,6 +184,27 @@ func c28Gen(t *rapid.T) c28Case {
 			}
 		}
 	}
+	// derived symbols
+	if rapid.Bool().Draw(t, "derived") {
+		c.Feat = rapid.IntRange(1, 15).Draw(t, "feat")
+	}
+	if rapid.IntRange(0, 2).Draw(t, "template") == 0 {
+		// the instance name <base>_<F>: from a terminal spelled <base><f> (same identifier), or fresh
+		base, flag := "q", "B"
+		var plain []string
+		for _, tn := range c.Terms {
+			if c28IDRe.MatchString(tn) && len(tn) >= 2 && !strings.ContainsAny(tn, "-_") {
+				plain = append(plain, tn)
+			}
+		}
+		if len(plain) > 0 && rapid.Bool().Draw(t, "tmplCollides") {
+			tn := plain[rapid.IntRange(0, len(plain)-1).Draw(t, "tmplOf")]
+			base, flag = tn[:len(tn)-1], strings.ToUpper(tn[len(tn)-1:])
+		}
+		if c28IDRe.MatchString(base) && c28Ident.MatchString(flag) && !seen[base] && !c28Reserved[base] && flag[0] >= 'A' && flag[0] <= 'Z' {
+			c.Tmpl = [2]string{base, flag}
+		}
+	}
 	return c
 }
 
@@ -225,8 +257,15 @@ func c28Grammar(c c28Case) string {
 		fmt.Fprintf(&sb, "%s: /%c/\n", tname, 'a'+i)
 	}
 	sb.WriteString("\n:: parser\n\n")
+	if c.Tmpl[0] != "" {
+		fmt.Fprintf(&sb, "%%flag %s;\n\n", c.Tmpl[1])
+	}
 	if len(c.Nts) > 0 {
 		fmt.Fprintf(&sb, "%%input %s;\n\n", c.Nts[0])
+	}
+	feat := c.Feat
+	if len(c.Terms) < 2 {
+		feat = 0 // the feature rule needs two different terminals to stay unambiguous
 	}
 	for i, nt := range c.Nts {
 		fmt.Fprintf(&sb, "%s:", nt)
@@ -235,6 +274,35 @@ func c28Grammar(c c28Case) string {
 		}
 		if i+1 < len(c.Nts) {
 			sb.WriteString(" " + c.Nts[i+1])
+		} else {
+			if c.Tmpl[0] != "" {
+				fmt.Fprintf(&sb, " %s<+%s>", c.Tmpl[0], c.Tmpl[1])
+			}
+			if feat != 0 {
+				sb.WriteString(" zfeat")
+			}
+		}
+		sb.WriteString(";\n")
+	}
+	if c.Tmpl[0] != "" {
+		fmt.Fprintf(&sb, "%s<%s>: [%s] %s | [!%s] %s %s;\n", c.Tmpl[0], c.Tmpl[1], c.Tmpl[1], c.Terms[0], c.Tmpl[1], c.Terms[0], c.Terms[0])
+	}
+	if feat != 0 {
+		t0, t1 := c.Terms[0], c.Terms[1]
+		sb.WriteString("zfeat:")
+		if feat&1 != 0 {
+			sb.WriteString(" " + t0 + "?")
+		}
+		sb.WriteString(" " + t1)
+		if feat&2 != 0 {
+			fmt.Fprintf(&sb, " (%s %s | %s %s)+", t0, t1, t0, t0)
+		}
+		if feat&4 != 0 {
+			sb.WriteString(" { _ = 1 }")
+		}
+		sb.WriteString(" " + t1)
+		if feat&8 != 0 {
+			sb.WriteString("+")
 		}
 		sb.WriteString(";\n")
 	}
@@ -293,7 +361,8 @@ func c28Check(c c28Case, r *ev.Recorder) *Failure {
 			if !c28Ident.MatchString(s.ID) {
 				return failf("grammar-invalid-id:"+c28NameClass(s.Name), "symbol %q got the invalid identifier %q; grammar:\n%s", s.Name, s.ID, src)
 			}
-			if prev, ok := byID[s.ID]; ok && prev != s.Name {
+			// (two entries of Grammar.Syms are two distinct symbols, also when they carry one name)
+			if prev, ok := byID[s.ID]; ok {
 				return failf("grammar-duplicate-id-not-reported", "symbols %q and %q both get the identifier %q but the compiler reported no error; grammar:\n%s", prev, s.Name, s.ID, src)
 			}
 			byID[s.ID] = s.Name
@@ -315,7 +384,7 @@ func c28Check(c c28Case, r *ev.Recorder) *Failure {
 func TestC28(t *testing.T) {
 	p := &prop[c28Case]{
 		ID:   "C28",
-		Rule: "60% single names: identifiers matching the tm lexer's ID rule (letters, digits, '_' and inner '-', 1..7 chars) or quoted ids '...' of 0..5 atoms (ASCII punctuation, letters, digits, control chars, backslash escapes, non-ASCII BMP and astral runes), each converted with all four ident styles and checked to be non-empty, ASCII [A-Za-z_][A-Za-z0-9_]*, ident.IsValid and in the requested casing; 40% grammars declaring 1..4 terminals and 1..3 nonterminals where names are derived from each other to collide ('-' vs '_', case variants, '+' vs plus), compiled with compiler.Compile: accepted grammars must give every symbol a non-empty valid identifier and pairwise distinct identifiers. Non-trivial: quoted name with >=2 atoms or id with '_', '-' or a digit; grammar with >=3 symbols or a reported collision. Distinct by name / grammar text.",
+		Rule: "60% single names: identifiers matching the tm lexer's ID rule (letters, digits, '_' and inner '-', 1..7 chars) or quoted ids '...' of 0..5 atoms (ASCII punctuation, letters, digits, control chars, backslash escapes, non-ASCII BMP and astral runes), each converted with all four ident styles and checked to be non-empty, ASCII [A-Za-z_][A-Za-z0-9_]*, ident.IsValid and in the requested casing; 40% grammars declaring 1..4 terminals and 1..3 nonterminals where names are derived from each other to collide ('-' vs '_', case variants, '+' vs plus, the derived spellings xopt / x_list / x_optlist), half of them with symbols the compiler derives itself (an optional terminal, a group list, a mid-rule action, a `+` list in one rule; a templated nonterminal whose instance name base_F is spelled like a terminal), compiled with compiler.Compile: accepted grammars must give every symbol a non-empty valid identifier and pairwise distinct identifiers. Non-trivial: quoted name with >=2 atoms or id with '_', '-' or a digit; grammar with >=3 symbols or a reported collision. Distinct by name / grammar text.",
 		Quick: 100000, Thorough: 1000000,
 		Gen:   c28Gen,
 		Check: c28Check,
